@@ -15,6 +15,7 @@ from pyrepseq.metric import Metric, Levenshtein, WeightedLevenshtein  # noqa: E4
 from pyrepseq.metric.tcr_metric import AlphaCdr3Levenshtein, BetaCdr3Levenshtein, Cdr3Levenshtein  # noqa: E402
 
 PROPERTY = "C05"
+QUICK_SCALE = 3
 RULE = ("collections of 2-40 strings over small alphabets (distance 0 has multiplicity), optional second collection, TCR tables "
         "with alpha-only / beta-only / both CDR3 columns and arbitrary index, legacy 2-tuples; bin edge vectors: strictly "
         "increasing ints or half-integers not necessarily starting at 0, last edge sometimes below the maximum distance; "
@@ -190,7 +191,11 @@ def build_tcr(case):
     if case.get("with_v"):
         data["TRBV"] = ["TRBV7-2*01"] * len(rows)
         data["clone_count"] = list(range(len(rows)))
+    if case.get("extra_cdr3_like"):
+        data["CDR3B_nt"] = ["TGTGCC"] * len(rows)      # a metadata column whose name merely starts with CDR3
     df = pd.DataFrame(data)
+    if case.get("reverse_columns"):
+        df = df[list(df.columns)[::-1]]
     if case.get("index") == "str":
         df.index = [f"c{i}" for i in range(len(df))]
     elif case.get("index") == "rev":
@@ -248,6 +253,56 @@ def check_tcr(case, rec):
         m1 = min(len(rows), m)
         if tot != m1 * (m1 - 1) // 2:
             raise Violation("maxseqs-size", f"table maxseqs={m}, N={len(rows)}: {tot} pairs")
+
+
+def check_sizes(case, rec):
+    """Collection sizes around block boundaries (2^k - 1, 2^k, 2^k + 1): every pair must still be counted once."""
+    n, n2 = case["n"], case.get("n2")
+    pool = case["pool"]
+    seqs = [pool[(i * 7 + i // 3) % len(pool)] for i in range(n)]
+    rec.note(case, True, [f"n={n}", "two" if n2 else "one"])
+    memo = {}
+
+    def d(a, b):
+        k = (a, b) if a <= b else (b, a)
+        if k not in memo:
+            memo[k] = O.lev(a, b)
+        return memo[k]
+    edges = [0, 1, 2, 3, 5, 9]
+    c1 = Counter(seqs)
+    if n2:
+        seqs2 = [pool[(i * 5 + 1) % len(pool)] for i in range(n2)]
+        c2 = Counter(seqs2)
+        dist_counts = Counter()
+        for a, ca in c1.items():
+            for b, cb in c2.items():
+                dist_counts[d(a, b)] += ca * cb
+        got = call("pcDelta-sizes", pyrepseq.pcDelta, list(seqs), list(seqs2), bins=edges, normalize=False)
+    else:
+        dist_counts = Counter()
+        items = sorted(c1)
+        for i, a in enumerate(items):
+            dist_counts[0] += c1[a] * (c1[a] - 1) // 2
+            for b in items[i + 1:]:
+                dist_counts[d(a, b)] += c1[a] * c1[b]
+        got = call("pcDelta-sizes", pyrepseq.pcDelta, list(seqs), bins=edges, normalize=False)
+    want = [0] * (len(edges) - 1)
+    for dist, cnt in dist_counts.items():
+        for b in range(len(edges) - 1):
+            last = b == len(edges) - 2
+            if edges[b] <= dist < edges[b + 1] or (last and dist == edges[-1]):
+                want[b] += cnt
+    cmp_hist("sizes-histogram", got, want, False, f"n={n} n2={n2}")
+
+
+def enum_sizes(tier):
+    sizes = [31, 32, 33, 63, 64, 65, 127, 128, 129, 255, 256, 257, 511, 512, 513] + ([1023, 1024, 1025, 2047, 2048, 2049] if tier == "thorough" else [1025])
+    pool = ["A", "AC", "CA", "AAC", "ACC", "CCA", "AACC", "C", "CCCC", ""]
+    for n in sizes:
+        yield {"n": n, "pool": pool}
+        yield {"n": n, "n2": 3, "pool": pool}
+        if n <= 129:
+            yield {"n": 3, "n2": n, "pool": pool}
 
 
 def check_background(case, rec):
@@ -331,7 +386,8 @@ def tcr_case(draw, tier="quick"):
     fb = draw(G.clonal_family(alpha="CASQY", max_size=n, min_size=n, founder_len=(3, 8), allow_empty=False))
     case = {"rows": [[fa[i], fb[i]] for i in range(n)], "cols": draw(st.sampled_from(["A", "B", "AB", "AB"])),
             "bins": draw(edges_strategy()), "normalize": draw(st.booleans()), "pseudocount": draw(st.sampled_from([0, 0.5])),
-            "index": draw(st.sampled_from(["default", "str", "rev", "dup"])), "with_v": draw(st.booleans())}
+            "index": draw(st.sampled_from(["default", "str", "rev", "dup"])), "with_v": draw(st.booleans()),
+            "extra_cdr3_like": draw(st.booleans()), "reverse_columns": draw(st.booleans())}
     if draw(st.booleans()):
         case["explicit_metric"] = "explicit"
     if draw(st.integers(0, 2)) == 0:
@@ -353,5 +409,6 @@ SUBS = [
     Sub("strings", check_strings, strategy=lambda t: strings_case(t), budget=(2500, 25000)),
     Sub("maxseqs", check_maxseqs, strategy=lambda t: maxseqs_case(t), budget=(800, 8000)),
     Sub("tcr_tables", check_tcr, strategy=lambda t: tcr_case(t), budget=(800, 8000)),
+    Sub("block_boundary_sizes", check_sizes, enum=enum_sizes),
     Sub("background", check_background, strategy=lambda t: background_case(t), budget=(100, 600)),
 ]
